@@ -58,6 +58,18 @@ def sv_program(rng):
             post.append(f"{at['name']}.end <= {num_text(at['end'] + 20)};")
         lines.append(f"{kind} {at['name']} = new {scope}.P{at['pred']}({', '.join(args)});")
         lines += post
+    # alternatives: one branch of a disjunction collides, with constant times (no ordering can repair it), with a
+    # fixed fact - the solver has to fall back on the other branch
+    if rng.random() < 0.35:
+        s_ = rng.choice(insts)
+        k = rng.randrange(n_pred)
+        base = 100 + 40 * rng.randint(0, 2)
+        lines.append(f"fact fx = new {s_}.P{k}(a: 0.0, start: {num_text(base)}, end: {num_text(base + 10)});")
+        dur = ", duration: 6.0" if rng.random() < 0.5 else ""
+        bad = f"goal ga = new {s_}.P{rng.randrange(n_pred)}(a: 1.0, start: {num_text(base + 2)}, end: {num_text(base + 8)}{dur});"
+        good = f"goal gb = new {s_}.P{rng.randrange(n_pred)}(a: 2.0, start: {num_text(base + 20)}, end: {num_text(base + 26)}{dur});"
+        brs = [bad, good] if rng.random() < 0.5 else [good, bad]
+        lines.append("{ " + brs[0] + " } or { " + brs[1] + " }")
     # some relative orderings consistent with the plant
     for _ in range(rng.randint(0, 3)):
         a, b = rng.sample(atoms, 2) if len(atoms) >= 2 else (atoms[0], atoms[0])
@@ -105,6 +117,23 @@ def rr_program(rng):
         kind = "fact" if rng.random() < 0.8 else "goal"
         lines.append(f"{kind} {at['name']} = new {scope}.Use({', '.join(args)});")
         lines += post
+    # alternatives: one branch of a disjunction exceeds the capacity with constant times (nothing can repair it)
+    if rng.random() < 0.35:
+        r = rng.choice(list(caps))
+        c = caps[r]
+        base = 100 + 40 * rng.randint(0, 2)
+        a0 = rng.choice([c, c / 2 + F(1, 2), c])
+        lines.append(f"fact ux = new {r}.Use(amount: {num_text(a0)}, start: {num_text(base)}, end: {num_text(base + 10)});")
+        dur = ", duration: 6.0" if rng.random() < 0.5 else ""
+        over = c - a0 + rng.choice([F(1, 2), F(1), c / 2])
+        fit = (c - a0) if rng.random() < 0.5 and c > a0 else F(1, 2)
+        bad = f"goal ua = new {r}.Use(amount: {num_text(over)}, start: {num_text(base + 2)}, end: {num_text(base + 8)}{dur});"
+        if rng.random() < 0.5 and fit <= c - a0:
+            good = f"goal ub = new {r}.Use(amount: {num_text(fit)}, start: {num_text(base + 2)}, end: {num_text(base + 8)}{dur});"
+        else:
+            good = f"goal ub = new {r}.Use(amount: {num_text(min(c, over))}, start: {num_text(base + 20)}, end: {num_text(base + 26)}{dur});"
+        brs = [bad, good] if rng.random() < 0.5 else [good, bad]
+        lines.append("{ " + brs[0] + " } or { " + brs[1] + " }")
     return "\n".join(lines) + "\n", {"kind": "rr", "caps": caps, "atoms": atoms}
 
 
